@@ -684,15 +684,25 @@ func (s *Session) initMemManager() error {
 	return nil
 }
 
-func (s *Session) extractShmMetadata(body []byte) (bufferPath string, queuePath string) {
+func (s *Session) extractShmMetadata(body []byte) (bufferPath string, queuePath string, err error) {
+	errMalformed := errors.New("malformed share memory metadata")
 	offset := 0
+	if len(body) < offset+2 {
+		return "", "", errMalformed
+	}
 	queuePathLen := int(binary.BigEndian.Uint16(body[0:2]))
 	offset += 2
+	if len(body) < offset+queuePathLen+2 {
+		return "", "", errMalformed
+	}
 	queuePath = string(body[offset : offset+queuePathLen])
 	offset += queuePathLen
 
 	bufferPathLen := int(binary.BigEndian.Uint16(body[offset : offset+2]))
 	offset += 2
+	if len(body) < offset+bufferPathLen {
+		return "", "", errMalformed
+	}
 	bufferPath = string(body[offset : offset+bufferPathLen])
 	return
 }
